@@ -58,6 +58,9 @@ pub fn concrete_reply(r: &Value, c: u64, pos: usize) -> Value {
     }
     if r["cont"] == json!(true) {
         v["continues"] = json!(true);
+    } else if (c as usize + pos) % 2 == 1 {
+        // "no further reply" may be said by leaving the member out or by saying false (other implementations do): both occur
+        v["continues"] = json!(false);
     }
     v
 }
